@@ -35,6 +35,10 @@ func Run(c *hx.Ctx) {
 	}
 	// hx.NewRng(seed) and hx.NewRng(seed+1) are the same splitmix stream one draw apart; scatter the seeds
 	c.Rng = hx.NewRng(scatter(c.Seed))
+	if len(c.Args) >= 2 && c.Args[0] == "only" && c.Args[1] == "peerneg" { // debugging aid
+		runPeerNeg(c)
+		return
+	}
 	runFlowOps(c)
 	runInts(c)
 	runStrings(c)
@@ -42,6 +46,7 @@ func Run(c *hx.Ctx) {
 	runHeaderLists(c)
 	runFrameSeqs(c)
 	runPeer(c)
+	runPeerNeg(c)
 }
 
 func scatter(z uint64) uint64 {
